@@ -26,7 +26,7 @@ import (
 
 func init() {
 	checks["C18"] = &Check{
-		Shards: func(tier string) int { return 6 },
+		Shards: func(tier string) int { return 10 },
 		Run:    c18run,
 		Finalize: func(m *shardOut, r *ev.Run) {
 			r.Cov["states"] = m.Counts["cells"]
@@ -34,7 +34,7 @@ func init() {
 			r.Cov["traces_validated_against_impl"] = m.Counts["cells"]
 			r.Cov["evaluations"] = m.Counts["cells"]
 			r.Cov["distinct_nontrivial"] = len(m.Outc)
-			r.Cov["rule"] = "finite matrix on the real stack: TLS configuration shape (certificate via Certificates / GetCertificate / GetConfigForClient; client certificate required and verified; the test directory's own default-TLS and WithMTLS configurations) x client behaviour (plaintext request of each of the 7 operations, 64 arbitrary bytes, connect and close, TLS without certificate, certificate from another CA, right certificate), each next to a conforming bystander that binds before, while and after; the handler log must have no entry for a connection that does not satisfy the configuration. The interleavings of failing handshakes with bystander traffic are explored by the SCHED part (coverage key sched_part)."
+			r.Cov["rule"] = "finite matrix on the real stack: TLS configuration shape (certificate via Certificates / GetCertificate / GetConfigForClient; client certificate required and verified; the test directory's own default-TLS and WithMTLS configurations) x client behaviour (plaintext request of each of the 7 operations, 64 arbitrary bytes, connect and close, TLS without certificate, certificate from another CA, certificate from another call of the library's own GetTLSConfig(WithMTLS), right certificate) x shape of Run's option list (nil / other options before and after WithTLSConfig), each next to a conforming bystander that binds before, while and after; the handler log must have no entry for a connection that does not satisfy the configuration. The interleavings of failing handshakes with bystander traffic are explored by the SCHED part (coverage key sched_part)."
 			r.Cov["samples"] = m.Samp
 			r.Cov["outcomes"] = m.Outc
 			r.Cov["exhaustive"] = !m.CapHit
@@ -52,6 +52,8 @@ type rpki struct {
 	pool            *x509.CertPool
 	srv, cli, other tls.Certificate
 	clientBase      *tls.Config
+	helperOnce      sync.Once
+	helperCert      *tls.Certificate
 }
 
 func mkRealPKI() *rpki {
@@ -92,6 +94,22 @@ func mkRealPKI() *rpki {
 	return p
 }
 
+// helperOther: the client certificate of another testdirectory.GetTLSConfig(WithMTLS) call in this process -
+// issued by a CA that the library generated itself, but not the CA of the server under test.
+func (p *rpki) helperOther() *tls.Certificate {
+	p.helperOnce.Do(func() {
+		t := &quietT{}
+		_, cc := testdirectory.GetTLSConfig(t, testdirectory.WithMTLS(t))
+		if cc != nil && len(cc.Certificates) > 0 {
+			p.helperCert = &cc.Certificates[0]
+		}
+	})
+	if p.helperCert == nil {
+		panic("harness: testdirectory.GetTLSConfig(WithMTLS) returned no client certificate")
+	}
+	return p.helperCert
+}
+
 type c18srv struct {
 	addr   string
 	stop   func()
@@ -100,7 +118,10 @@ type c18srv struct {
 	creds  [2]string // bind DN / password that succeed
 }
 
-func startOwn(cfg *tls.Config, p *rpki) *c18srv {
+// startOwn starts a gldap server of our own with the TLS configuration. shape is the shape of Run's option
+// list: "" = just WithTLSConfig, "nil-first" / "nil-last" = a nil Option (documented as ignored) before /
+// after it, "other-first" = an unrelated option before it.
+func startOwn(cfg *tls.Config, p *rpki, shape string) *c18srv {
 	srv, _ := gldap.NewServer(gldap.WithLogger(quietLogger))
 	mux, _ := gldap.NewMux()
 	var mu sync.Mutex
@@ -119,7 +140,17 @@ func startOwn(cfg *tls.Config, p *rpki) *c18srv {
 	_ = srv.Router(mux)
 	port := freePort()
 	addr := fmt.Sprintf("127.0.0.1:%d", port)
-	go func() { _ = srv.Run(addr, gldap.WithTLSConfig(cfg)) }()
+	var nilOpt gldap.Option
+	ropts := []gldap.Option{gldap.WithTLSConfig(cfg)}
+	switch shape {
+	case "nil-first":
+		ropts = []gldap.Option{nilOpt, gldap.WithTLSConfig(cfg)}
+	case "nil-last":
+		ropts = []gldap.Option{gldap.WithTLSConfig(cfg), nilOpt}
+	case "other-first":
+		ropts = []gldap.Option{gldap.WithLogger(quietLogger), nilOpt, gldap.WithTLSConfig(cfg), gldap.WithLogger(quietLogger)}
+	}
+	go func() { _ = srv.Run(addr, ropts...) }()
 	for i := 0; !srv.Ready() && i < 200000; i++ {
 		time.Sleep(50 * time.Microsecond)
 	}
@@ -229,11 +260,13 @@ func c18cell(c *Ctx, cfgName string, s *c18srv, p *rpki, right *tls.Certificate,
 		switch beh {
 		case "tls-other-ca":
 			cert = &p.other
+		case "tls-other-helper-ca":
+			cert = p.helperOther()
 		case "tls-right-cert":
 			cert = right
 		}
 		ccfg := s.client(cert)
-		if beh == "tls-other-ca" {
+		if beh == "tls-other-ca" || beh == "tls-other-helper-ca" {
 			// present the foreign certificate even though the server's acceptable-CA list does not name its issuer
 			forced := *cert
 			ccfg.Certificates = nil
@@ -291,50 +324,60 @@ func c18cell(c *Ctx, cfgName string, s *c18srv, p *rpki, right *tls.Certificate,
 
 func c18run(c *Ctx) {
 	p := mkRealPKI()
-	behaviours := []string{"plaintext-bind", "plaintext-search", "plaintext-modify", "plaintext-add", "plaintext-delete", "plaintext-extended", "plaintext-unbind", "plaintext-bytes", "connect-close", "tls-no-cert", "tls-other-ca", "tls-right-cert"}
+	behaviours := []string{"plaintext-bind", "plaintext-search", "plaintext-modify", "plaintext-add", "plaintext-delete", "plaintext-extended", "plaintext-unbind", "plaintext-bytes", "connect-close", "tls-no-cert", "tls-other-ca", "tls-other-helper-ca", "tls-right-cert"}
 	base := func() *tls.Config { return &tls.Config{MinVersion: tls.VersionTLS12} }
 	type cfgT struct {
-		name string
-		mk   func() *tls.Config
-		mtls bool
+		name  string
+		mk    func() *tls.Config
+		mtls  bool
+		shape string
 	}
 	srvCert := p.srv
 	cfgs := []cfgT{
-		{"server-auth, Certificates", func() *tls.Config { c := base(); c.Certificates = []tls.Certificate{srvCert}; return c }, false},
+		{"server-auth, Certificates", func() *tls.Config { c := base(); c.Certificates = []tls.Certificate{srvCert}; return c }, false, ""},
+		{"server-auth, Certificates, Run(nil option, WithTLSConfig)", func() *tls.Config { c := base(); c.Certificates = []tls.Certificate{srvCert}; return c }, false, "nil-first"},
+		{"server-auth, Certificates, Run(WithTLSConfig, nil option)", func() *tls.Config { c := base(); c.Certificates = []tls.Certificate{srvCert}; return c }, false, "nil-last"},
+		{"client certificate required, Certificates, Run(other options around WithTLSConfig)", func() *tls.Config {
+			c := base()
+			c.Certificates = []tls.Certificate{srvCert}
+			c.ClientAuth = tls.RequireAndVerifyClientCert
+			c.ClientCAs = p.pool
+			return c
+		}, true, "other-first"},
 		{"server-auth, GetCertificate", func() *tls.Config {
 			c := base()
 			c.GetCertificate = func(*tls.ClientHelloInfo) (*tls.Certificate, error) { return &srvCert, nil }
 			return c
-		}, false},
+		}, false, ""},
 		{"server-auth, GetConfigForClient", func() *tls.Config {
 			c := base()
 			inner := base()
 			inner.Certificates = []tls.Certificate{srvCert}
 			c.GetConfigForClient = func(*tls.ClientHelloInfo) (*tls.Config, error) { return inner, nil }
 			return c
-		}, false},
+		}, false, ""},
 		{"client certificate required, Certificates", func() *tls.Config {
 			c := base()
 			c.Certificates = []tls.Certificate{srvCert}
 			c.ClientAuth = tls.RequireAndVerifyClientCert
 			c.ClientCAs = p.pool
 			return c
-		}, true},
+		}, true, ""},
 		{"client certificate required, GetCertificate", func() *tls.Config {
 			c := base()
 			c.GetCertificate = func(*tls.ClientHelloInfo) (*tls.Certificate, error) { return &srvCert, nil }
 			c.ClientAuth = tls.RequireAndVerifyClientCert
 			c.ClientCAs = p.pool
 			return c
-		}, true},
+		}, true, ""},
 	}
 	for _, cf := range cfgs {
 		if !c.Mine() {
 			continue
 		}
-		s := startOwn(cf.mk(), p)
+		s := startOwn(cf.mk(), p, cf.shape)
 		for _, b := range behaviours {
-			sat := b == "tls-right-cert" || (!cf.mtls && (b == "tls-no-cert" || b == "tls-other-ca"))
+			sat := b == "tls-right-cert" || (!cf.mtls && (b == "tls-no-cert" || b == "tls-other-ca" || b == "tls-other-helper-ca"))
 			c18cell(c, cf.name, s, p, &p.cli, b, sat, false)
 		}
 		s.stop()
@@ -375,7 +418,7 @@ func c18run(c *Ctx) {
 			if b == "tls-right-cert" && !dirMTLS {
 				continue
 			}
-			sat := b == "tls-right-cert" || (!dirMTLS && (b == "tls-no-cert" || b == "tls-other-ca"))
+			sat := b == "tls-right-cert" || (!dirMTLS && (b == "tls-no-cert" || b == "tls-other-ca" || b == "tls-other-helper-ca"))
 			c18cell(c, name, s, p, right, b, sat, true)
 		}
 		d.Stop()
